@@ -489,9 +489,9 @@ def check_uri(ctx, rep):
         rep.ok("T-ESC", "Uri:delimiters", w.where(), "writer opens and closes with %r" % chr(term))
     else:
         rep.bad("T-ESC", "T-ESC:Uri:delimiters", w.where(), "writer delimiters %s/%s vs reader terminator %r" % (before, after, chr(term)))
-    # well-formed Uris contain no control characters
-    domain = iv_sub(UNIVERSE, [(0, 0x1F)])
-    return _check_cells(rep, "Uri", cells, skip, term, intro, {}, w, domain=domain, uri_tab=tab)
+    # well-formed Uris contain no control characters, but the reader accepts them (raw or as \uXXXX), so for 're-encoding loses
+    # nothing the first decode kept' (C11) the writer has to give them back: the whole of Unicode is the domain
+    return _check_cells(rep, "Uri", cells, skip, term, intro, {}, w, domain=UNIVERSE, uri_tab=tab)
 
 
 def check_raw_interpolations(ctx, rep):
@@ -919,7 +919,7 @@ def check_element_encoding(ctx, rep):
     return n
 
 
-def check_cell_presence_only(ctx, rep):
+def check_cell_presence_only(ctx, rep, residual=True):
     """a grid cell is left empty exactly when the row has no tag of that column: the cell write is guarded by the presence
     test of row.get(col.name) and by nothing that depends on the tag's value"""
     prog = ctx.prog
@@ -945,4 +945,70 @@ def check_cell_presence_only(ctx, rep):
             rep.ok("T-CELL", key, w.where(bi), "cell written iff row.get(column name) is Some")
         else:
             rep.bad("T-CELL", "T-CELL:grid-cell:presence-only", w.where(bi), "the grid cell write depends on more than the tag's presence (%s): some present tags are written as empty cells and are lost when read back" % (other or val_dep or "no direct get() presence test"))
-    return n
+    return n + check_row_line_not_empty(ctx, rep, w, residual)
+
+
+def check_row_line_not_empty(ctx, rep, w, residual=True):
+    """no row is written as an empty line (the reader, like every Zinc reader, takes an empty line as white space / the end of
+    the grid and the row is lost): on the path where the row has no value for the column, the writer reaches the next
+    column only through a write, or with `columns.len() != 1` (then the line has at least one ',')"""
+    pres = None
+    for bi in range(w.n):
+        t = w.term(bi)
+        if t["k"] != "switch":
+            continue
+        d = G.describe(w, t["op"])
+        if d.kind == "discr" and d.args and d.args[0].kind == "call" and re.search(r"(BTreeMap|HaystackDict>)::get$", d.args[0].v) and ".name" in repr(d.args[0]):
+            vals = {int(v): tb for v, tb in t["targets"]}
+            none_edge = vals.get(0, t["otherwise"] if 1 in vals else None)
+            pres = (bi, none_edge)
+    if pres is None or pres[1] is None:
+        rep.gap("Grid writer: cell presence test", w.where(), "switch on row.get(col.name) not found")
+        return 0
+    sw, start = pres
+    # the inner (per column) loop header: the Enumerate::next call block that dominates the presence test and is in a cycle with it
+    header = None
+    for scc in w.sccs():
+        if sw in scc:
+            cands = [b2 for b2 in scc if w.term(b2)["k"] == "call" and strip_generics(mir.callee_name(w.term(b2)) or "").endswith("Enumerate as std::iter::Iterator>::next")]
+            if cands:
+                # innermost: the one closest (fewest blocks between)
+                header = min(cands, key=lambda h: len(G.blocks_between(w, h, sw)))
+    if header is None:
+        rep.gap("Grid writer: column loop", w.where(sw), "enumerate loop around the cell write not found")
+        return 0
+    writes = {bi for bi, t in w.calls() if strip_generics(mir.callee_name(t) or "").startswith("std::io::Write::")}
+    cut_edges = set()
+    for bi in range(w.n):
+        t = w.term(bi)
+        if t["k"] == "switch":
+            d = G.describe(w, t["op"])
+            if d.kind == "binop" and d.v in ("Eq", "Ne") and len(d.args) == 2 and d.args[1].kind == "const" and d.args[1].v == 1 and d.args[0].kind == "call" and d.args[0].v.endswith("::len") and ".columns" in repr(d.args[0]):
+                vals = {int(v): tb for v, tb in t["targets"]}
+                ne_edge = vals.get(0, None) if d.v == "Eq" else (t["otherwise"] if 0 in vals else vals.get(1))
+                if ne_edge is not None:
+                    cut_edges.add((bi, ne_edge))
+    seen, st = {start}, [start]
+    silent = None
+    while st:
+        x = st.pop()
+        if x == header:
+            silent = x
+            break
+        if x in writes:
+            continue
+        for y in w.succ(x):
+            if (x, y) in cut_edges or y in seen:
+                continue
+            seen.add(y)
+            st.append(y)
+    if silent is None:
+        rep.ok("T-CELL", "row-line-not-empty", w.where(sw), "a missing cell either writes a placeholder or the grid has more than one column (the line holds a ',')")
+        # what the placeholder reads back as: the Zinc grammar has no spelling for 'no cell' on a one-cell line other than N,
+        # which the reader stores as an explicit Null value - missing and Null are told apart everywhere else
+        ph = [bi for bi in seen if bi in writes and G.describe(w, w.term(bi)["args"][1]).kind == "conststr" and G.describe(w, w.term(bi)["args"][1]).v == "N"]
+        if ph and residual:
+            rep.bad("T-CELL", "T-CELL:single-column-missing-cell-reads-as-null", w.where(ph[0]), "in a single-column grid a row without a value is written as N and read back as a row whose cell is Null ({} becomes {col: N}); Zinc cannot spell a missing cell on a one-cell line")
+    else:
+        rep.bad("T-CELL", "T-CELL:row-line-not-empty", w.where(sw), "a row without a value in a single-column grid is written as an empty line, which readers skip or take as the end of the grid: the row (and with a reference reader every row after it) is lost")
+    return 1
